@@ -11,6 +11,7 @@ import (
 	"os"
 	"os/exec"
 	"path/filepath"
+	"runtime"
 	"sort"
 	"strings"
 	"sync"
@@ -66,6 +67,9 @@ type caseC17 struct {
 	// Godebug: the program runs with this GODEBUG setting (runtime knobs a deployment may set: asyncpreemptoff=1 is the documented
 	// work-around for signal trouble, and what platforms without asynchronous preemption always have)
 	Godebug string `json:"godebug,omitempty"`
+	// OverP: the program runs with GOMAXPROCS = NumCPU + 3 (more Ps than usable CPUs: an orchestrator that fixes GOMAXPROCS while a
+	// cpuset shrinks the affinity mask, or an I/O-heavy service that raises it) and makes a few dozen calls before the one it reports.
+	OverP bool `json:"over_p,omitempty"`
 }
 
 // writeFork copies the non-test sources of the tree under test into dir/fork as module example.com/fork/secp256k1.
@@ -253,6 +257,13 @@ func compute() []byte {
 	if %v {
 		firstCallDuringOutage()
 	}
+	if os.Getenv("VERIF_WARM_CALLS") != "" {
+		for i := 0; i < 40; i++ {
+			_ = secp.HashToScalar(msg, dst).Encode()
+			_ = secp.EncodeToGroup(msg, dst).Encode()
+			_ = secp.HashToGroup(msg, dst).Encode()
+		}
+	}
 	if idle := %d; idle > 0 {
 		_ = secp.HashToScalar(msg, dst).Encode()
 		_ = secp.HashToGroup(msg, dst).Encode()
@@ -374,7 +385,7 @@ func runC17(c caseC17, o *gen.Obs) error {
 	o.ClassIf(otherLinks, "sha256-linked-by-others")
 	o.ClassIf(c.Wrap, "registry-replaced")
 	o.ClassIf(c.Rejected > 0, "after-rejected-calls")
-	o.NonTrivialIf(!otherLinks || c.Wrap || c.Rejected > 0 || c.SingleP || c.Arch386 || c.DeadStderr || c.Where != "" || c.Outage || c.IdleMs > 0 || c.Fork || c.Tracer || c.Godebug != "")
+	o.NonTrivialIf(!otherLinks || c.Wrap || c.Rejected > 0 || c.SingleP || c.Arch386 || c.DeadStderr || c.Where != "" || c.Outage || c.IdleMs > 0 || c.Fork || c.Tracer || c.Godebug != "" || c.OverP)
 
 	dir, err := os.MkdirTemp("", "verif-c17-")
 	if err != nil {
@@ -467,6 +478,13 @@ func runProgram(c caseC17, o *gen.Obs, dir string, limit time.Duration, stdout, 
 		run.Env = append(os.Environ(), "GOMAXPROCS=1")
 		o.Class("single-p")
 	}
+	if c.OverP && !c.SingleP {
+		if run.Env == nil {
+			run.Env = os.Environ()
+		}
+		run.Env = append(run.Env, fmt.Sprintf("GOMAXPROCS=%d", runtime.NumCPU()+3), "VERIF_WARM_CALLS=40")
+		o.Class("gomaxprocs>numcpu")
+	}
 	if c.Godebug != "" {
 		if run.Env == nil {
 			run.Env = os.Environ()
@@ -542,6 +560,7 @@ var c17 = gen.Register(&gen.Check[caseC17]{
 		c.Arch386 = gen.Chance(t, "arch386", 1, 4)
 		c.DeadStderr = gen.Chance(t, "deadStderr", 1, 4)
 		c.Where = []string{"", "", "init", "goroutine", "locked", "finalizer", "crowd"}[gen.Pick(t, "where", 7)]
+		c.OverP = gen.Chance(t, "overP", 1, 4)
 		if gen.Chance(t, "godebug", 1, 4) {
 			c.Godebug = rapid.SampledFrom([]string{"asyncpreemptoff=1", "asyncpreemptoff=1,gcstoptheworld=1", "madvdontneed=1", "asyncpreemptoff=1"}).Draw(t, "godebugValue")
 		}
@@ -585,6 +604,7 @@ var c17 = gen.Register(&gen.Check[caseC17]{
 			{Fn: "HashToGroup", Msg: "616263", Dst: dst, Fork: true}, {Fn: "HashToScalar", Msg: "616263", Dst: hex.EncodeToString(bytes.Repeat([]byte{'f'}, 300)), Fork: true},
 			{Fn: "HashToGroup", Msg: "616263", Dst: dst, Go126: go126()}, {Fn: "HashToScalar", Msg: "616263", Dst: hex.EncodeToString(bytes.Repeat([]byte{'n'}, 300)), Go126: go126(), Where: "goroutine"},
 			{Fn: "HashToGroup", Msg: "616263", Dst: dst, Outage: true}, {Fn: "EncodeToGroup", Msg: "616263", Dst: dst, Outage: true}, {Fn: "HashToScalar", Msg: "616263", Dst: dst, Outage: true},
+			{Fn: "HashToGroup", Msg: "616263", Dst: dst, OverP: true}, {Fn: "HashToScalar", Msg: "616263", Dst: dst, OverP: true, Where: "crowd"},
 			{Fn: "HashToGroup", Msg: "616263", Dst: dst, Where: "crowd", SingleP: true, Godebug: "asyncpreemptoff=1", Wrap: true},
 			{Fn: "HashToScalar", Msg: "616263", Dst: dst, Where: "crowd", Godebug: "asyncpreemptoff=1"}, {Fn: "EncodeToGroup", Msg: "616263", Dst: dst, Where: "crowd", SingleP: true, Wrap: true},
 			{Fn: "HashToGroup", Msg: "616263", Dst: dst, Where: "init"}, {Fn: "HashToScalar", Msg: "616263", Dst: dst, Where: "finalizer"},
